@@ -108,6 +108,25 @@ pub fn vx_set_len(f: &mut std::fs::File, n: u64) -> (r: std::io::Result<()>)
 { f.set_len(n) }
 }
 
+// ---- trusted model of stat (graph::stat): a file exists or not; if it does it has ONE modification time -------------
+verus! {
+#[verifier::external_type_specification]
+#[verifier::external_body]
+pub struct ExMetadata(std::fs::Metadata);
+pub uninterp spec fn fs_exists(path: &std::path::Path) -> bool;
+pub uninterp spec fn fs_mtime(path: &std::path::Path) -> std::time::SystemTime;
+pub uninterp spec fn meta_mtime(m: &std::fs::Metadata) -> std::time::SystemTime;
+/// ASSUMED: the only way std::fs::metadata fails is "no such file" (no permission / I/O errors while building)
+#[verifier::external_body]
+pub fn vx_fs_metadata(path: &std::path::Path) -> (r: std::io::Result<std::fs::Metadata>)
+    ensures (match r { Ok(m) => fs_exists(path) && meta_mtime(&m) == fs_mtime(path), Err(e) => !fs_exists(path) && vx_kind(&e) == std::io::ErrorKind::NotFound })
+{ std::fs::metadata(path) }
+#[verifier::external_body]
+pub fn vx_meta_modified(m: &std::fs::Metadata) -> (r: std::io::Result<std::time::SystemTime>)
+    ensures r is Ok, r->Ok_0 == meta_mtime(m)
+{ m.modified() }
+}
+
 // `==` / `!=` on byte slices is element-wise equality (vstd routes it through PartialEqSpec, which it leaves
 // unspecified for [u8]): trusted.
 pub mod vx_slice_eq { use vstd::prelude::*; use vstd::std_specs::cmp::PartialEqSpec;
